@@ -485,6 +485,12 @@ impl Translator {
             }
         }
 
+        #[cfg(abra_verif)]
+        {
+            if std::env::var_os("ABRA_VERIF_NO_OPT").is_some() {
+                return st;
+            }
+        }
         st.lines = optimize(st.lines);
 
         st
@@ -3233,3 +3239,6 @@ impl Type {
         }
     }
 }
+
+#[cfg(all(kani, abra_verif))]
+include!(concat!(env!("ABRA_VERIF_HARNESS_DIR"), "/translate.rs"));
